@@ -318,6 +318,7 @@ def check(run: common.Run):
     # ---- (d) deterministic sweep: the property oracle end to end under safe=True (seed-independent)
     sweep = list(pool) + pairs[:: (5 if quick else 1)]
     sweep += UNDERSCORE_FAMILY
+    sweep += hunt_family()
     corpus = load_corpus()
     failures, suppressed = [], Counter()
     n_sweep = 0
@@ -493,9 +494,52 @@ def exact_family():
     for P in ([], ["Holder"], ["statFn"], ["Holder.statFn"], ["Elsewhere.statFn"], ["Elsewhere.otherStat", "statFn"],
               ["Holder.otherStat"], ["x"], ["Elsewhere.Holder"]):
         out.append(("RMoveStatic", src, P))
+    # delete_unreachable_code: members of a class body after a blocking statement (hunt C07-0)
+    for blocker in ("raise ValueError", "assert False", "while True:\n        pass"):
+        src = (f"class A:\n    {blocker}\n    afterVar = 2\n    def after_func(self):\n        return self\n"
+               "    class AfterClass:\n        pass\n    annAfter: int = 3\n")
+        keys = ["afterVar", "after_func", "AfterClass", "annAfter", "A.afterVar", "A.after_func", "A.AfterClass", "A"]
+        for k in range(0, 3):
+            for P in itertools.combinations(keys, k):
+                out.append(("RUnreachable", src, list(P)))
+        out.append(("RUnreachable", src, keys))
+    # ... and the module body is NOT a scope of delete_unreachable_code (seed C07-c): nothing at top level goes
+    for blocker in ("raise ValueError", "assert False", "while True:\n    pass"):
+        out.append(("RUnreachable*", f"before = 1\n{blocker}\nafterVar = 2\ndef after_func():\n    return 1\n"
+                                     "class AfterClass:\n    pass\n", []))
     # delete_pointless_statements: `_`
     for s in UNDERSCORE_FAMILY[:4]:
         out.append(("RPointless", s, []))
+    return out
+
+
+def hunt_family():
+    """seed-independent families from the round-4 hunt: scope x blocking statement x following definitions;
+    handle-opening assignments (x same-line statements x following definitions); commented-out code x line ending"""
+    out = []
+    blockers = ["raise ValueError\n", "assert False\n", "assert 0\n", "while True:\n    pass\n",
+                "for i in [1]:\n    raise ValueError\n", "import sys\nsys.exit(1)\n"]
+    followers = ["afterVar = 2\n", "def after_func(self=None):\n    return self\n", "class AfterClass:\n    pass\n",
+                 "annAfter: int = 3\n"]
+    for b in blockers:
+        for k in (1, 2, 4):
+            body = "before = 1\n" + b + "".join(followers[:k])
+            out.append(body)                                                     # module scope
+            out.append("class A:\n" + "".join("    " + l + "\n" for l in body.splitlines()))   # class scope
+    handles = ["open('f')", "open('f', 'w')"]
+    for h in handles:
+        for same_line in ("", "; c = 2", "; c = 2; d = 3"):
+            for k in (0, 1, 3):
+                body = f"s = {h}{same_line}\n" + "".join(followers[:k]) + ("y = None\n" if k == 0 else "")
+                out.append(body)
+                out.append("class A:\n" + "".join("    " + l + "\n" for l in body.splitlines()))
+        out.append(f"s = {h}\ndata = s.read()\ns.close()\nlater = 1\ndef g():\n    return 1\n")
+    for eol in ("\n", "\r", "\r\n"):
+        for comment in ("# a = 1", "# import os", "# def f(): pass"):
+            out.append(f"x = 1{eol}{comment}{eol}z = 3{eol}")
+            out.append(f"{comment}{eol}z = 3{eol}def f():{eol}    return 1{eol}")
+            out.append(f"class A:{eol}    {comment}{eol}    z = 3{eol}    y = 2{eol}")
+            out.append(f"class A:\n    {comment}{eol}    z = 3\n    y = 2\n")
     return out
 
 
